@@ -36,6 +36,10 @@ def main():
         o = dict(options)
         o[k] = v
         out[f"changed:{k}"] = attempt(o)
+    # an option the equilibrium was created with (at a non-default value) but that is OMITTED from the mesh's settings: the mesh would silently use its default
+    for k in ("y_boundary_guards",):
+        o = {kk: vv for kk, vv in options.items() if kk != k}
+        out[f"changed:omitted:{k}"] = attempt(o)
     print("@@JSON " + json.dumps(out))
     sys.stdout.flush()
     os._exit(0)
